@@ -47,6 +47,8 @@ type LoadBalancer struct {
 	all     TargetList
 	index   int
 	lock    sync.Mutex
+
+	successor *LoadBalancer
 }
 
 func NewLoadBalancer(targets TargetList) *LoadBalancer {
@@ -119,6 +121,17 @@ func (lb *LoadBalancer) DrainAll(timeout time.Duration) {
 	wg.Wait()
 }
 
+// SupersededBy marks this load balancer as replaced by a deployment. Requests
+// that still hold a reference to it (because they looked up their service
+// before the replacement was installed) are handed to the successor from then
+// on, so none of them is sent to a target that is being drained or removed.
+func (lb *LoadBalancer) SupersededBy(successor *LoadBalancer) {
+	lb.lock.Lock()
+	defer lb.lock.Unlock()
+
+	lb.successor = successor
+}
+
 func (lb *LoadBalancer) ServeHTTP(w http.ResponseWriter, r *http.Request) {
 	target, req, err := lb.claimTarget(r)
 	verifPoint("lb.claimed", r, err)
@@ -140,6 +153,12 @@ func (lb *LoadBalancer) TargetStateChanged(target *Target) {
 
 func (lb *LoadBalancer) claimTarget(req *http.Request) (*Target, *http.Request, error) {
 	lb.lock.Lock()
+	for lb.successor != nil {
+		successor := lb.successor
+		lb.lock.Unlock()
+		lb = successor
+		lb.lock.Lock()
+	}
 	defer lb.lock.Unlock()
 
 	target := lb.nextTarget()
